@@ -1,0 +1,23 @@
+/*
+ * Verification hooks for contract-based verification with CBMC.
+ *
+ * With CJET_VERIF undefined (every production and test build) both macros
+ * expand to nothing, so the token stream of every function is unchanged.
+ * With -DCJET_VERIF the verification wrappers in /verif get
+ *   VERIF_LOOP(...)  : a loop contract (__CPROVER_assigns / _loop_invariant /
+ *                      _decreases) placed between a loop head and its body;
+ *   VERIF_GHOST(...) : ghost statements; they may only assign variables whose
+ *                      names start with verif_ (declared by the wrapper).
+ */
+#ifndef CJET_VERIF_HOOKS_H
+#define CJET_VERIF_HOOKS_H
+
+#ifdef CJET_VERIF
+#define VERIF_LOOP(...) __VA_ARGS__
+#define VERIF_GHOST(...) __VA_ARGS__
+#else
+#define VERIF_LOOP(...)
+#define VERIF_GHOST(...)
+#endif
+
+#endif
